@@ -2,16 +2,16 @@
 """prints the detection table for DESIGN.md from seeded/*/meta.json and seeded/RESULTS.json (development tool)"""
 import json, glob, os
 res = json.load(open("/verif/seeded/RESULTS.json"))
-print("| change | breaks | needs, in short | quick check of that property | first message |")
-print("|----|----|----|----|----|")
+print("| change | written against | needs, in short | check run | verdict | first message |")
+print("|----|----|----|----|----|----|")
 for d in sorted(glob.glob("/verif/seeded/C*-*")):
     name = os.path.basename(d)
     m = json.load(open(d + "/meta.json"))
     rows = [(k, v) for k, v in res.items() if k.startswith(name + "|")]
     need = " ".join(m.get("needs_to_manifest", "").split())[:110]
     if not rows:
-        print(f"| {name} | {m['property']} | {need} | not run | |")
+        print(f"| {name} | {m['property']} | {need} | - | not run | |")
     for k, v in rows:
         verdict = {0: "**missed** (exit 0)", 1: "caught (exit 1)", 2: "inconclusive (exit 2)"}.get(v["exit"], str(v["exit"]))
         msg = v["message"].split("|")[0].strip()
-        print(f"| {name} | {k.split('|')[1]} | {need} | {verdict} | `{msg}` |")
+        print(f"| {name} | {m['property']} | {need} | {k.split('|')[1]} {k.split('|')[2]} | {verdict} | `{msg}` |")
